@@ -316,7 +316,7 @@ def run(ctx: Context):
             # the value consulted is the caller's servermap: no re-binding of _servermap before the store
             for n in sts:
                 if assign_value(n, "self._new_seqnum") is not None and \
-                        "highest_seqnum" in src(fn, assign_value(n, "self._new_seqnum")):
+                        "self._servermap.highest_seqnum()" in fnm.norm(n, assign_value(n, "self._new_seqnum")):
                     def rebinds(m):
                         return "self._servermap" in node_stores(m)
                     pre = [m for m in cfg.nodes if rebinds(m)]
@@ -489,8 +489,8 @@ def run(ctx: Context):
                 s = dict(zip(FIELDS, st))
                 if (s["qe"] and s["xe"]) or (s["quota"] and s["recov"] and s["loop"]):
                     continue
-                missing = [k for k, lbl in (("quota", "query quota not met"), ("recov", "no recoverable version seen"),
-                                            ("loop", "unrecoverable versions not examined")) if not s[k]]
+                missing = [lbl for k, lbl in (("quota", "query quota not met"), ("recov", "no recoverable version seen"),
+                                              ("loop", "unrecoverable versions not examined")) if not s[k]]
                 w = witness(cfg, parent, (n.id, st))
                 r.violation(fn, fn.loc(n.ast), "MODE_READ update can finish although servers are left to ask: %s "
                             "(path: %s)" % (", ".join(missing), w.brief()), w)
